@@ -1188,3 +1188,70 @@ Fixpoint ptree_atree (rho : valuation) (t : ptree) : atree :=
   end.
 Definition exec_ptrees (rho : valuation) (w : Z) (ts : list ptree) (acc : Z) : Z :=
   exec_atrees w (map (ptree_atree rho) ts) acc.
+
+(* ====================================================================== *)
+(* 5. Descriptors of what the lowering emits (for the structural tie to the real emitter)                         *)
+(* ====================================================================== *)
+(* the NIR operator and operands _ir.emit_rhs hands to rtlil.emit_operator for one Amaranth operator node
+   (lower_op2 above = these, through emit_binary, plus the result slice: Proofs lower_op2_via_ir) *)
+Definition ir_op2 (o : op2) (a : list net) (sa : bool) (b : list net) (sb : bool) : nop2 * list net * list net :=
+  match o with
+  | OAnd | OOr | OXor =>
+      let '(a', b', sg) := unify_bitwise a sa b sb in
+      (match o with OAnd => N2And | OOr => N2Or | _ => N2Xor end, a', b')
+  | OAdd | OSub =>
+      let '(a', b', sg) := unify_bitwise a sa b sb in
+      let w := nlen a' + 1 in
+      (match o with OAdd => N2Add | _ => N2Sub end, extend a' sg w, extend b' sg w)
+  | OMul => let w := nlen a + nlen b in (N2Mul, extend a sa w, extend b sb w)
+  | ODiv =>
+      let w := nlen a + (if sb then 1 else 0) in
+      let '(a', b', sg) := unify_bitwise a sa b sb in
+      let '(a'', b'') := if nlen a' <? w then (extend a' sg w, extend b' sg w) else (a', b') in
+      (if sg then N2DivS else N2DivU, a'', b'')
+  | OMod =>
+      let '(a', b', sg) := unify_bitwise a sa b sb in (if sg then N2ModS else N2ModU, a', b')
+  | OShl => (N2Shl, extend a sa (nlen a + 2 ^ nlen b - 1), b)
+  | OShr => (if sa then N2ShrS else N2ShrU, a, b)
+  | OEq | ONe =>
+      let '(a', b', _) := unify_bitwise a sa b sb in (match o with OEq => N2Eq | _ => N2Ne end, a', b')
+  | OLt | OLe | OGt | OGe =>
+      let '(a', b', sg) := unify_bitwise a sa b sb in
+      (match o, sg with
+       | OLt, false => N2LtU | OLt, true => N2LtS | OLe, false => N2LeU | OLe, true => N2LeS
+       | OGt, false => N2GtU | OGt, true => N2GtS | OGe, false => N2GeU | _, _ => N2GeS
+       end, a', b')
+  end.
+
+Definition ckind_code (k : ckind) : Z :=
+  match k with
+  | KNot => 0 | KNeg => 1 | KRand => 2 | KRor => 3 | KRxor => 4 | KRbool => 5
+  | KAdd => 6 | KSub => 7 | KMul => 8 | KDivF => 9 | KModF => 10 | KShl => 11 | KShr => 12 | KSshr => 13 | KShift => 14
+  | KAnd => 15 | KOr => 16 | KXor => 17 | KEq => 18 | KNe => 19 | KLt => 20 | KLe => 21 | KGt => 22 | KGe => 23
+  end.
+
+(* the first cell emit_operator writes for a binary NIR operator: type, A_SIGNED, B_SIGNED, A_WIDTH, B_WIDTH, Y_WIDTH,
+   and whether the $reduce_bool / $mux zero-divisor guard follows *)
+Definition cell_desc2 (o : nop2) (a b : list net) : list Z :=
+  let '(k, _, _) := bin_table o in
+  let '(asg, bsg, oa, ob) := choose_operands o a b in
+  [ckind_code k; b2z asg; b2z bsg; nlen oa; nlen ob; nop2_width o a; b2z (is_divmod o)].
+
+Definition cell_desc1 (o : nop1) (a : list net) : list Z :=
+  match o with
+  | N1Neg =>
+      let au := shorten a false in let as_ := shorten a true in
+      let '(sg, opd) := if nlen as_ <? nlen au then (true, as_) else (false, au) in
+      [ckind_code KNeg; b2z sg; nlen opd; nop1_width o a]
+  | _ => [ckind_code (un_table o); 0; nlen a; nop1_width o a]
+  end.
+
+(* emit_part: [stride <> 1 ($mul emitted); B_WIDTH of the $shift; A_SIGNED; A_WIDTH; Y_WIDTH] *)
+Definition part_desc (v : list net) (vsg : bool) (off : list net) (w stride : Z) : list Z :=
+  [b2z (negb (stride =? 1));
+   (if stride =? 1 then nlen off else nlen off + bits_for stride false); b2z vsg; nlen v; w].
+
+(* $meminit_v2 with ABITS 0 / ADDR {} : the DATA constant holds WORDS rows of WIDTH bits, row 0 in the low bits *)
+Definition meminit_rows (w words data : Z) : list Z :=
+  map (fun k => mask w (Z.shiftr data (w * Z.of_nat k))) (seq 0 (Z.to_nat words)).
+Definition MemI (w size data : Z) : memdecl := Mem w size (meminit_rows w size data).
